@@ -406,6 +406,24 @@ def _direct_gate_edges(F, G, B):
                 for tgt, tv in B.switch_truth(tt).items():
                     if tv != c["neg"]:
                         out.append((bi, tgt, roots, G.gates[callee][0]))
+            elif callee in ("<core::result::Result<T, E>>::is_ok", "<core::result::Result<T, E>>::is_err") and c["call"]["args"]:
+                # `count.compare_exchange(1, 1, Acquire, Relaxed).is_ok()`: the strong form answers Ok exactly when the count is 1
+                # (the weak form may refuse a sole owner spuriously: not a gate)
+                o2 = B.origin(c["call"]["args"][0])
+                if o2.get("kind") == "rvalue" and o2["rv"]["k"] == "ref" and not o2["rv"]["place"]["p"]:
+                    o2 = B.origin_local(o2["rv"]["place"]["l"])
+                t2 = o2.get("term") if o2.get("kind") == "call" else None
+                if t2 is not None and atomics.atomic_class(t2) == model.ATOMIC_CAS and atomics.receiver_is_count(F, B, t2) and atomics.cas_test(t2) == 1 and not atomics.cas_is_weak(t2):
+                    ordr = atomics.ordering_of(B, t2["args"][3]) if len(t2["args"]) > 3 else None
+                    roots = set()
+                    for a in t2["args"][:1]:
+                        pl = operand_place(a)
+                        if pl is not None:
+                            roots |= root_args(B, pl["l"])
+                    want_true = callee.endswith("is_ok")
+                    for tgt, tv in B.switch_truth(tt).items():
+                        if (tv != c["neg"]) == want_true:
+                            out.append((bi, tgt, roots, ordr))
             elif not c["neg"] and (callee in G.loaders or (atomics.atomic_class(c["call"]) == model.ATOMIC_LOAD and atomics.receiver_is_count(F, B, c["call"]))):
                 # `match Arc::count(&this) { 1 => .., _ => .. }`: a switch on the loaded count itself, the arm for the value 1
                 ordr = atomics.resolve_ordering(G.loaders[callee], B, c["call"]) if callee in G.loaders else atomics.ordering_of(B, c["call"]["args"][1])
